@@ -10,7 +10,7 @@ if ! git -C $d apply "$patch" 2>/dev/null; then
     if ! (cd $d && patch -p1 --fuzz=3 -s < "$patch"); then echo "PATCH DOES NOT APPLY"; git -C /repo worktree remove --force $d; rm -rf $ev; exit 3; fi
   fi
 fi
-/verif/bin/verifcheck -repo $d -verif $ev -p "$props" 2>&1 | grep -v "^loaded" | cut -c1-400
+${VERIFCHECK:-/verif/bin/verifcheck} -repo $d -verif $ev -p "$props" 2>&1 | grep -v "^loaded" | cut -c1-400
 rc=${PIPESTATUS[0]}
 git -C /repo worktree remove --force $d; rm -rf $ev
 exit $rc
